@@ -24,6 +24,7 @@ type ModSet struct {
 	alloc  bool
 	rh     bool
 	all    bool
+	region func(*ssa.BasicBlock) bool // the blocks the set is computed for (nil: unknown)
 }
 
 func newModSet() *ModSet {
@@ -99,6 +100,7 @@ func (vc *VC) reachableKeys(t types.Type, ms *ModSet, seen map[string]bool) {
 
 func (vc *VC) modsOfBlocks(fn *ssa.Function, in func(*ssa.BasicBlock) bool, depth int) *ModSet {
 	ms := newModSet()
+	ms.region = in
 	for _, b := range fn.Blocks {
 		if !in(b) {
 			continue
@@ -577,8 +579,7 @@ func (vc *VC) execCall(fr *Frame, st *State, x *ssa.Call) {
 	}
 	if b, ok := c.Value.(*ssa.Builtin); ok {
 		if fr.depth == 0 && fr.con != nil && len(fr.con.Asserts) > 0 {
-			k := fr.idxN["assertsite:"+b.Name()]
-			fr.idxN["assertsite:"+b.Name()] = k + 1
+			k := callOrdinal(fr.fn, x, b.Name())
 			keys := []string{fmt.Sprintf("%s#%d", b.Name(), k)}
 			vc.cutPoints(fr, st, keys, "")
 			fr.regs[x] = vc.builtin(fr, st, x, b.Name(), args)
@@ -663,8 +664,7 @@ func (vc *VC) callFunc(fr *Frame, st *State, x *ssa.Call, callee *ssa.Function, 
 	// cut points placed around this call by the contract of the function under proof
 	if fr.depth == 0 && fr.con != nil && len(fr.con.Asserts) > 0 {
 		nm := fnDisplayName(callee)
-		k := fr.idxN["assertsite:"+nm]
-		fr.idxN["assertsite:"+nm] = k + 1
+		k := callOrdinal(fr.fn, x, nm)
 		keys := []string{fmt.Sprintf("%s#%d", nm, k), fmt.Sprintf("%s#%d", nm[strings.LastIndex(nm, ".")+1:], k)}
 		vc.cutPoints(fr, st, keys, "")
 		r := vc.callFunc2(fr, st, x, callee, args, binds)
@@ -1160,4 +1160,37 @@ func (vc *VC) loopEnvAt(fr *Frame, st *State) *Env {
 		}
 	}
 	return env
+}
+
+// callOrdinal: the position of call x among the calls of the same callee in fn,
+// in source order (cut points are named <callee>#<n>).
+func callOrdinal(fn *ssa.Function, x *ssa.Call, name string) int {
+	calleeName := func(c *ssa.Call) string {
+		if b, ok := c.Call.Value.(*ssa.Builtin); ok {
+			return b.Name()
+		}
+		if c.Call.IsInvoke() {
+			return ""
+		}
+		switch f := c.Call.Value.(type) {
+		case *ssa.Function:
+			return fnDisplayName(f)
+		case *ssa.MakeClosure:
+			return fnDisplayName(f.Fn.(*ssa.Function))
+		}
+		return ""
+	}
+	n := 0
+	for _, b := range fn.Blocks {
+		for _, in := range b.Instrs {
+			c, ok := in.(*ssa.Call)
+			if !ok || c == x {
+				continue
+			}
+			if calleeName(c) == name && c.Pos() < x.Pos() {
+				n++
+			}
+		}
+	}
+	return n
 }
